@@ -49,13 +49,18 @@ def _single_return(fn):
 
 def _subst_locals(node, defs):
     """replace single-definition local names by their definitions (one level is enough for this repo)"""
-    class T(ast.NodeTransformer):
-        def visit_Name(self, n):
-            if n.id in defs and len(defs[n.id]) == 1 and isinstance(defs[n.id][0], ast.AST) and isinstance(n.ctx, ast.Load):
-                import copy
-                return T().visit(copy.deepcopy(defs[n.id][0]))
-            return n
     import copy
+
+    class T(ast.NodeTransformer):
+        def __init__(self, busy=()):
+            self.busy = set(busy)
+
+        def visit_Name(self, n):
+            if (n.id in defs and n.id not in self.busy and len(defs[n.id]) == 1 and isinstance(defs[n.id][0], ast.AST)
+                    and isinstance(n.ctx, ast.Load)):
+                # (a definition that mentions its own name - `x = min(x, ...)` re-binding a parameter - is not unfolded again)
+                return T(self.busy | {n.id}).visit(copy.deepcopy(defs[n.id][0]))
+            return n
     return T().visit(copy.deepcopy(node))
 
 
@@ -474,6 +479,9 @@ def _wrapper_case(repo, it, S, spec):
         off = RW_CHUNK[0]
     elif pk == "chrom":
         parent = chrom_parent(it, RW_GENOME, alphabet="NT_EXTENDED")
+    elif pk == "chromend":
+        # the last exon ends on the last base of the chromosome: windows reaching the end of the sequence are ordinary windows
+        parent = chrom_parent(it, RW_GENOME[:exons[-1][1]], alphabet="NT_EXTENDED")
     tx = mk_transcript(it, exons, S[sn], cds_blocks, [F["ZERO"]] * len(cds_blocks), parent_or_seq_chunk_parent=parent)
     ft = mk_feature(it, exons, S[sn], parent_or_seq_chunk_parent=parent)
     T = enum_positions(list(exons), sn)
@@ -539,8 +547,8 @@ def _wrapper_case(repo, it, S, spec):
                 elif to_rel:
                     for a in cuts:
                         for b in cuts:
-                            if a >= b:
-                                continue
+                            if a >= b or (pk == "chromend" and b > exons[-1][1]):
+                                continue  # (a window past the end of the sequence is not a valid window)
                             for qs in ("PLUS", "MINUS", "UNSTRANDED"):
                                 inside = [p for p in range(a, b) if p in R]
                                 if not inside:
@@ -580,7 +588,7 @@ def _wrapper_case(repo, it, S, spec):
 def rw_wrappers(ctx, rule="C06.RW", classes=("TranscriptInterval", "FeatureInterval", "CDSInterval")):
     repo = ctx.repo
     specs = [(li, sn, pk, cn) for li in range(len(RW_LAYOUTS) if ctx.thorough else 2) for sn in ("PLUS", "MINUS")
-             for pk in ("none", "chunk", "chrom") if ctx.thorough or pk != "chrom"
+             for pk in ("none", "chunk", "chrom", "chromend") if ctx.thorough or pk != "chrom"
              for cn in classes]
 
     def work(spec):
